@@ -91,6 +91,14 @@ class NumpyModel(object):
                 self.I.pure_since = saved
         return a.attrs
 
+    def ensure_attrs_with(self, a, fin):
+        if a.attrs is None:
+            src = a.lazy_src
+            a.attrs = {}
+            a.lazy_src = None
+            fin(a, src)
+        return a.attrs
+
     def scalar(self, e, dtype):
         k = ZK[dtype]
         v = self.I.mk(e, k, True)
@@ -527,7 +535,7 @@ class NumpyModel(object):
                         raise_py('IndexError', 'index %d is out of bounds for axis %d with size %d' % (p, ax, dim))
                     sels.append(Sel('fix', idx=z3.IntVal(p % dim)))
                 else:
-                    if not I.ctx.branch(z3.And(-dz <= pz, pz < dz)):
+                    if not I.ctx.branch(z3.And(-dz <= pz, pz < dz), safety=False):
                         raise_py('IndexError', 'index out of bounds for axis %d' % ax)
                     if isinstance(p, int):
                         sels.append(Sel('fix', idx=z3.simplify(pz + dz if p < 0 else pz)))
@@ -636,12 +644,12 @@ class NumpyModel(object):
         if isinstance(n, int):
             for k in range(n):
                 e = f(z3.IntVal(k))
-                if not I.ctx.branch(z3.And(-dz <= e, e < dz)):
+                if not I.ctx.branch(z3.And(-dz <= e, e < dz), safety=False):
                     raise_py('IndexError', 'index out of bounds for axis %d' % ax)
         else:
             k = I.ctx.fresh_int('ia_k')
             bad = z3.Exists([k], z3.And(0 <= k, k < nz, z3.Not(z3.And(-dz <= f(k), f(k) < dz))))
-            if I.ctx.branch(bad):
+            if I.ctx.branch(bad, safety=True):
                 raise_py('IndexError', 'index out of bounds for axis %d' % ax)
         return Sel('map', n=self.norm_dim(n) if not isinstance(n, int) else n,
                    fn=lambda r, f=f, dz=dz: z3.If(f(r) < 0, f(r) + dz, f(r)), adv=True)
